@@ -74,7 +74,7 @@ def run(ctx):
         w = DigitalWaveform(2, n, extended_properties=None if init is None else {LN: init})
         lines.append(f"nnew {n} {'-' if init is None else enc(init)}"); expect.append("ok")
         for _ in range(rng.randint(1, 12 if ctx.quick else 30)):
-            op = rng.choice(["read", "read", "write", "set", "del", "merge", "pickle", "lookup", "load", "readall"])
+            op = rng.choice(["read", "read", "write", "set", "set", "del", "merge", "pickle", "lookup", "lookup", "lookup", "load", "readall"])
             if op == "read":
                 i = rng.randrange(n)
                 nm = w.signals[i].name
@@ -138,9 +138,15 @@ def run(ctx):
                     if o[1].name != x:
                         ctx.violation(what="signals[name] returned another signal", name=x, observed=o[1].name, required=x)
                     lines.append(f"nlookup {enc(x)}"); expect.append(f"ok {o[1].signal_index}")
+                    names_now = [w.signals[j].name for j in range(n)]
+                    if x in names_now and names_now[o[1].signal_index] != x:
+                        ctx.violation(what="signals[name] returned a signal that does not carry that name", name=x, observed=o[1].signal_index, required=names_now.index(x))
                 else:
                     if o[1] != "IndexError":
                         ctx.violation(what="signals[name] error class", name=x, observed=show(o), required="IndexError")
+                    names_now = [w.signals[j].name for j in range(n)]
+                    if x in names_now:
+                        ctx.violation(what="signals[name] does not find a signal that carries that name", name=x, names=names_now, observed=show(o), required=f"signal {names_now.index(x)}")
                     lines.append(f"nlookup {enc(x)}"); expect.append("err " + o[1])
             if not check(w, op):
                 break
